@@ -422,3 +422,49 @@ Print Assumptions C14_flags_three_threads_complete.
 Print Assumptions C14_flags_a_lookup_waits.
 Print Assumptions C14_old_class_level_table_refuted.
 Print Assumptions C14_analysis_depth_is_chain_length.
+
+(* ---- tree level: the parent walk of the annotators on a workspace of REAL trees (Model/WsTree.v) ----
+   ws : list of (file stem, syntax tree) -- ANY trees, no regularity, no acyclicity.  WsTree.walk returns
+   Outside when its fuel ends; WsTreeTerm.walk3 / lineage3 keep that outcome apart (WNoFuel), erase maps
+   WNoFuel and WOut to Outside.  Tied to the code by the differential stage `wstree` of checks/c10.py
+   (parent cycles, self-parents, missing parents among its mutants; a 120 s watchdog per workspace). *)
+From GoldV Require WsTree WsTreeProofs WsTreeTerm WsTreeCut WsTreeWitness.
+
+(* the walk returns within its fuel -- never the out-of-fuel value -- on every workspace shape; the path
+   it returns has no repeated document and is at most as long as the workspace *)
+Theorem C14_ws_lineage_terminates :
+  forall ws i,
+    WsTree.lineage_t ws i = WsTreeTerm.erase (WsTreeTerm.lineage3 ws i) /\
+    WsTreeTerm.lineage3 ws i <> WsTreeTerm.WNoFuel /\
+    (forall b path, WsTree.lineage_t ws i = DefTree.Ans (b, path) ->
+       NoDup path /\ (forall x, In x path -> x < length ws) /\ length path <= length ws).
+Proof. exact WsTreeTerm.ws_lineage_terminates. Qed.
+
+(* every request is answered: wdefinition / wcompletion are total with an outcome in {Outside, Ans}, no
+   Outside stems from a walk out of fuel, and every chain of tables a request searches (the chain of the
+   position, of the entity before a dot, of a used entity) has at most length ws + 1 tables *)
+Theorem C14_ws_requests_total :
+  forall ws a p,
+    (WsTree.wdefinition ws a p = DefTree.Outside \/ exists l, WsTree.wdefinition ws a p = DefTree.Ans l) /\
+    (WsTree.wcompletion ws a p = DefTree.Outside \/ exists l, WsTree.wcompletion ws a p = DefTree.Ans l) /\
+    (forall j, WsTree.lineage_t ws j = WsTreeTerm.erase (WsTreeTerm.lineage3 ws j) /\
+               WsTreeTerm.lineage3 ws j <> WsTreeTerm.WNoFuel) /\
+    (forall d t steps full, nth_error ws a = Some d -> WsTree.full_chain ws a t steps = DefTree.Ans full ->
+       length full <= length ws + 1 /\
+       (forall en ch, WsTree.entity_chain ws a full en = DefTree.Ans (Some ch) -> length ch <= length ws + 1)) /\
+    (forall j ch, WsTree.other_chain ws a j = DefTree.Ans ch -> length ch <= length ws).
+Proof. exact WsTreeTerm.ws_requests_total. Qed.
+
+(* non-vacuity on real dumps: aChild (aParent), aParent (aChild): the walk comes back and returns *)
+Example C14_ws_cycle_returns :
+  WsTreeTerm.lineage3 WsTreeWitness.wsx_cyc 0 = WsTreeTerm.WAns true [0] /\
+  WsTree.lineage_t WsTreeWitness.wsx_cyc 0 = DefTree.Ans (true, [0]) /\
+  WsTree.lineage_t WsTreeWitness.wsx 0 = DefTree.Ans (false, [0; 1]).
+Proof.
+  destruct WsTreeWitness.wsx_cyc_cut_facts as (H1 & _ & _ & _ & H5 & _). destruct WsTreeWitness.wsx_facts as (_ & _ & _ & H4 & _).
+  auto.
+Qed.
+
+Print Assumptions C14_ws_lineage_terminates.
+Print Assumptions C14_ws_requests_total.
+Print Assumptions C14_ws_cycle_returns.
